@@ -694,6 +694,9 @@ pub fn run(cfg: &Config, s: &mut Session) {
     crate::matrix::run(cfg, &mut ex);
     s.notes.push(format!("bytecode setter x consumer matrix: {:.1}s", t1.elapsed().as_secs_f64()));
     let t1 = std::time::Instant::now();
+    crate::glyfhostile::run(cfg, &mut ex);
+    s.notes.push(format!("hostile glyf family: {:.1}s", t1.elapsed().as_secs_f64()));
+    let t1 = std::time::Instant::now();
     crate::ift::run(cfg, &mut ex);
     s.notes.push(format!("IFT families: {:.1}s", t1.elapsed().as_secs_f64()));
     let t1 = std::time::Instant::now();
